@@ -201,3 +201,122 @@ func ruleLoopAdvanceExact(c *Ctx, r *Report, prefix string) {
 		}())
 	}
 }
+
+// ---- SEQ-BLOCKEND: a block is recorded and released only at its clean end ----
+// In streamReader.Read the block reader is dropped (r.br = nil) and its measured record enters the
+// index only on the path where blockReader.Read returned io.EOF - i.e. after the block's sizes,
+// padding and check were verified. Recording a block that failed would let a later Read continue
+// with index and footer, which still match, and report a clean end after damaged content.
+func ruleBlockEnd(c *Ctx, r *Report, prefix string) {
+	rule := prefix + "SEQ-BLOCKEND"
+	fn := c.Func("", "streamReader.Read")
+	brRead := c.Func("", "blockReader.Read")
+	fBr := c.Field("", "streamReader.br")
+	fIndex := c.Field("", "streamReader.index")
+	if fn == nil || brRead == nil || fBr == nil || fIndex == nil {
+		return
+	}
+	var last *ssa.Call
+	bad := ""
+	nEnd := 0
+	spec := SeqSpec{Fn: fn}
+	spec.Event = func(w *Walker, p *PState, ins ssa.Instruction) string {
+		if call, ok := callTo(ins, brRead); ok {
+			last = call
+			return "br.Read"
+		}
+		atEnd := func() bool {
+			if last == nil {
+				return false
+			}
+			ev := errValueOfCall(last)
+			if ev == nil {
+				return false
+			}
+			g := p.EqGlobal(p.Resolve(ev))
+			return g != nil && isEOF(g)
+		}
+		if st, ok := storeToField(ins, fBr); ok && isNilConst(stripConv(st.Val)) {
+			if !atEnd() {
+				bad = "the block reader is released (r.br = nil) at " + c.InstrPos(ins) + " although blockReader.Read did not report the verified end of the block (io.EOF)"
+			}
+			nEnd++
+			return "br=nil"
+		}
+		if _, ok := storeToField(ins, fIndex); ok {
+			if !atEnd() {
+				bad = "a record enters the stream's index at " + c.InstrPos(ins) + " although blockReader.Read did not report the verified end of the block (io.EOF)"
+			}
+			nEnd++
+			return "index+="
+		}
+		return ""
+	}
+	_, over := CollectPaths(c, spec)
+	if over {
+		r.Undecided(rule, FnName(fn), c.Pos(fn.Pos()), "path budget exceeded")
+		return
+	}
+	r.Check(bad == "" && nEnd >= 2, rule, FnName(fn), c.Pos(fn.Pos()), "the block's record is appended and the block reader released only after blockReader.Read returned io.EOF", bad)
+}
+
+// ---- WR-READFROM: an io.ReaderFrom of the module honours the interface's contract ----
+// io.Copy / io.CopyN hand the whole transfer to dst.ReadFrom when dst implements io.ReaderFrom;
+// the contract is "read until EOF or error". A ReadFrom that can return a nil error without its
+// source having reported io.EOF turns short reads of the source into a premature end (the raw
+// LZMA2 chunk refill uses io.CopyN into the decoder dictionary). Expected instances today: none.
+func ruleReaderFrom(c *Ctx, r *Report, prefix string) {
+	rule := prefix + "WR-READFROM"
+	n := 0
+	for _, pk := range []string{"", "lzma"} {
+		for _, fn := range c.modFuncs { // new methods included: a new ReadFrom changes what io.Copy does
+			if pkgPathOf(fn) != full(pk) {
+				continue
+			}
+			if fn.Name() != "ReadFrom" || fn.Signature.Recv() == nil || fn.Signature.Params().Len() != 1 || fn.Signature.Results().Len() != 2 || fn.Blocks == nil {
+				continue
+			}
+			if !isErrType(fn.Signature.Results().At(1).Type()) {
+				continue
+			}
+			src := fn.Params[len(fn.Params)-1]
+			n++
+			var last *ssa.Call
+			spec := SeqSpec{Fn: fn}
+			spec.Event = func(w *Walker, p *PState, ins ssa.Instruction) string {
+				if call, ok := ins.(*ssa.Call); ok && call.Call.IsInvoke() && call.Call.Method.Name() == "Read" && stripConv(p.Resolve(call.Call.Value)) == src {
+					last = call
+					return "src.Read"
+				}
+				return ""
+			}
+			paths, over := CollectPaths(c, spec)
+			if over {
+				r.Undecided(rule, FnName(fn), c.Pos(fn.Pos()), "path budget exceeded")
+				continue
+			}
+			bad := ""
+			for _, sp := range paths {
+				if sp.Panic || sp.ErrNonNil {
+					continue
+				}
+				ok := false
+				if last != nil && sp.Has("src.Read") {
+					if ev := errValueOfCall(last); ev != nil {
+						if g := sp.P.EqGlobal(sp.P.Resolve(ev)); g != nil && isEOF(g) {
+							ok = true
+						}
+					}
+				}
+				if !ok {
+					bad = "ReadFrom can return without an error although its source has not reported io.EOF: io.Copy/io.CopyN treat that as the end of the data (short reads of the source end the transfer early)"
+					break
+				}
+			}
+			r.Check(bad == "", rule, FnName(fn), c.Pos(fn.Pos()), "returns nil only after the source reported io.EOF", bad)
+		}
+	}
+	if n == 0 {
+		r.Pass(rule, "census", "", "no type of the library implements io.ReaderFrom (io.Copy/io.CopyN use plain Read/Write loops)", 1)
+	}
+}
